@@ -34,6 +34,12 @@ def _nests(a, b, c, tag):
         for ch in SI_OPS:
             out.append((BOOL, "%s(%s(a,b),c)" % (p, ch), _si(p, _si(ch, a, b), c)))
             out.append((BOOL, "%s(c,%s(a,b))" % (p, ch), _si(p, c, _si(ch, a, b))))
+    # predicates of one machine integer (odd?, even?, zero?) over an operand of either sign and over every operator
+    for u in ("odd", "even", "zero"):
+        out.append((BOOL, "%s(a)" % u, prim("si." + u, a)))
+        out.append((BOOL, "%s(neg(a))" % u, prim("si." + u, prim("si.neg", a))))
+        for ch in SI_OPS:
+            out.append((BOOL, "%s(%s(a,b))" % (u, ch), prim("si." + u, _si(ch, a, b))))
     for p in ("eq", "ne", "and", "or"):
         for c1 in CMP_OPS:
             x, y = _si(c1, a, b), _si(CMP_OPS[(CMP_OPS.index(c1) + 2) % 6], b, c)
